@@ -47,12 +47,9 @@ RULE = ("requests are drawn from VERIF_SEED: half of the tables as in C01 (gen_x
         "zone, prefactors (+,-,tiny,huge) set by Set_Prefactor and Multiply before and between queries; a case is "
         "non-trivial when the model answers ok/err and is counted once per distinct (family, call kind, table-size "
         "class, sign class of the prefactor, span class of the limits)")
-CORR_ONLY = ["OPEN FINDING (audit defect 16): the interior of the 1% extrapolation zone IS sampled; a turning point of the edge cubic strictly "
-             "between an extrapolated limit and the end knot is not a candidate of Local_* (clause 'extrapolation zone interior: ...'; repair proposed: "
-             "stationary points of the edge piece as candidates). Because of it the clause 'min x length <= Integrate <= max x length' is evaluated "
-             "for limits inside the domain only, and the Lean statements for limits in the zone (localExt_curve_zone, integ_bounds_zone) carry the "
-             "explicit hypothesis MonoOn (edge cubic monotone between the limit and the end knot); inside the domain localExt_curve / integ_bounds "
-             "are proved without hypotheses by composing C01's interp_monotone_on_segment and C09's locate theorems",
+CORR_ONLY = ["the square root of Stationary_Values (fix 51ca844) is a parameter of the model (class SqrtFn); the theorems for limits in the 1% zone "
+             "(localExt_curve_zone, integ_bounds_zone, edge_monotone_between_candidates) assume only that it is correct at the discriminant actually "
+             "passed to it (SqrtOk); the driver uses a 256-bit square root (exact on rational squares), validated by this correspondence run",
              "slack that remains: one evaluation is compared with Local_* at 64 eps x (sum of |terms| of the cubic), with Global_* at 32 eps (1-D) / "
              "8 eps (2-D) x max|table| x |prefactor| (rounding of the evaluation itself); Integrate at 16 eps x sum of |terms| relative to the left "
              "abscissa; scaling by Set_Prefactor/Multiply is demanded bit-for-bit (Integrate: for factors +-2^k, otherwise 128 eps x scale)"]
@@ -133,6 +130,44 @@ def gen_ext(rng, tier, meta):
     return build_ext(rng, meta, xs, ys, xd, fd, xs2, ys2, P, p, x1, x2)
 
 
+def steffen_abc(xs, ys, j):
+    """coefficients a, b, c of piece j as Compute_Steffen_Coefficients forms them (double arithmetic)"""
+    n = len(xs)
+    h = [xs[i + 1] - xs[i] for i in range(n - 1)]
+    sl = [(ys[i + 1] - ys[i]) / h[i] for i in range(n - 1)]
+    sg = lambda v: (v > 0) - (v < 0)
+
+    def dy(i):
+        if i == 0:
+            p = sl[0] * (1.0 + h[0] / (h[0] + h[1])) - sl[1] * h[0] / (h[0] + h[1])
+            return (sg(p) + sg(sl[0])) * min(abs(sl[0]), 0.5 * abs(p))
+        if i == n - 1:
+            p = sl[i - 1] * (1.0 + h[i - 1] / (h[i - 1] + h[i - 2])) - sl[i - 2] * h[i - 1] / (h[i - 1] + h[i - 2])
+            return (sg(p) + sg(sl[i - 1])) * min(abs(sl[i - 1]), 0.5 * abs(p))
+        p = (sl[i - 1] * h[i] + sl[i] * h[i - 1]) / (h[i - 1] + h[i])
+        return (sg(sl[i - 1]) + sg(sl[i])) * min(abs(p) / 2.0, min(abs(sl[i]), abs(sl[i - 1])))
+    d0, d1 = dy(j), dy(j + 1)
+    return (d0 + d1 - 2.0 * sl[j]) / (h[j] * h[j]), (3.0 * sl[j] - 2.0 * d0 - d1) / h[j], d0
+
+
+def stationary_points(xs, ys, j, lo, hi):
+    """abscissae of the stationary points of piece j strictly inside (lo, hi), as Stationary_Values finds them"""
+    a, b, c = steffen_abc(xs, ys, j)
+    A, B, C = 3.0 * a, 2.0 * b, c
+    roots = []
+    if A == 0.0:
+        if B != 0.0:
+            roots.append(-C / B)
+    else:
+        disc = B * B - 4.0 * A * C
+        if disc >= 0.0:
+            q = -0.5 * (B + (1.0 if B >= 0.0 else -1.0) * math.sqrt(disc))
+            roots.append(q / A)
+            if q != 0.0:
+                roots.append(C / q)
+    return [xs[j] + t for t in roots if lo < xs[j] + t < hi and math.isfinite(t)]
+
+
 def build_ext(rng, meta, xs, ys, xd, fd, xs2, ys2, P, p, x1, x2, fam="ext"):
     idx = [i for i, x in enumerate(xs2) if x1 <= x <= x2]
     allknots = len(idx) <= 80
@@ -146,6 +181,11 @@ def build_ext(rng, meta, xs, ys, xd, fd, xs2, ys2, P, p, x1, x2, fam="ext"):
         samples.append(min(max(lo + rng.random() * (hi - lo), lo), hi) if hi >= lo else x1)
     for x in inside[:20]:
         samples += [v for v in (math.nextafter(x, math.inf), math.nextafter(x, -math.inf)) if x1 <= v <= x2 and T.nd(v) == v]
+    # the stationary points of the continued edge cubics inside the extrapolated part of the range (candidates since 51ca844)
+    if x1 < xs2[0]:
+        samples += [T.nd(v) for v in stationary_points(xs2, ys2, 0, x1, min(x2, xs2[0]))]
+    if x2 > xs2[-1]:
+        samples += [T.nd(v) for v in stationary_points(xs2, ys2, len(xs2) - 2, max(x1, xs2[-1]), x2)]
     nin = len(samples)
     # strictly inside the 1% zone, between an extrapolated limit and the end knot (open finding C08-zone-turning-point)
     zone_s = []
@@ -230,18 +270,42 @@ def gen_zone(rng, tier, meta):
     R = []
     x = [0.0, 1.0, 2.0]; y = [0.0, 1.0, 3.98]     # the audit's example
     R.append(build_ext(rng, meta, x, y, -1.0, -1.0, x, y, [], 1.0, -0.009, 0.5, fam="zone"))
-    for _ in range(60 if tier == "thorough" else 12):
+    # limits EXACTLY one percent of the edge interval outside the domain (meaningful since fix a411065): spacing 100*2^k,
+    # for which 1e-2*h is exact in double
+    for k in (0, 1, -2, 3):
+        h = 100.0 * 2.0 ** k
+        n = rng.randint(3, 7)
+        x0 = h * rng.randint(-3, 3)
+        xs = [x0 + h * i for i in range(n)]
+        ys = [rng.uniform(-5, 5) for _ in range(n)]
+        lo_e, hi_e = xs[0] - 0.01 * h, xs[-1] + 0.01 * h
+        assert Fraction(xs[0]) - Fraction(lo_e) == Fraction(h) / 100 and Fraction(hi_e) - Fraction(xs[-1]) == Fraction(h) / 100
+        for x1, x2 in ((lo_e, hi_e), (lo_e, T.point(rng, xs, rng.randint(0, n - 2))), (T.point(rng, xs, rng.randint(0, n - 2)), hi_e)):
+            P, p = pref_ops(rng)
+            R.append(build_ext(rng, meta, xs, ys, -1.0, -1.0, xs, ys, P, p, x1, x2, fam="zone-edge"))
+        ops = ["G %s %s" % (hx(lo_e), hx(hi_e)), "G %s %s" % (hx(hi_e), hx(lo_e)), "I %s" % hx(lo_e), "D %s 1" % hx(hi_e), "L %s" % hx(lo_e), "L %s" % hx(hi_e)]
+        rq = "%s %d %s" % (head(xs, ys, -1.0, -1.0), len(ops), " ".join(ops))
+        meta[rq] = dict(fam="seq", gen="zone-edge", np=0, p=1.0, n=n, span=0)
+        R.append(rq)
+    for it in range(60 if tier == "thorough" else 16):
         n = rng.randint(3, 6)
-        h = rng.choice([1.0, 0.5, 2.0, rng.uniform(0.1, 10)])
         x0 = rng.choice([0.0, -3.0, rng.uniform(-100, 100)])
-        xs = [x0 + i * h for i in range(n)]
+        if it % 2 == 0:   # equal spacing: the edge piece is a parabola (a == 0 exactly), linear branch of Stationary_Values
+            h = rng.choice([1.0, 0.5, 2.0, rng.uniform(0.1, 10)])
+            hs = [h] * (n - 1)
+        else:             # unequal spacing, non-dyadic data: a is a rounding residue != 0, quadratic branch (q/A far away, C/q the turning point)
+            hs = [rng.uniform(0.1, 10) for _ in range(n - 1)]
+        xs = [x0]
+        for h in hs:
+            xs.append(xs[-1] + h)
         s0 = rng.choice([-1.0, 1.0]) * 10.0 ** rng.uniform(-2, 2)
         dl = rng.uniform(0.0005, 0.02)
         ys = [rng.uniform(-5, 5)]
-        ys.append(ys[0] + s0 * h)
-        ys.append(ys[1] + 3 * s0 * (1 - dl) * h)
+        ys.append(ys[0] + s0 * hs[0])
+        # boundary slope estimate p0 = s0 (2 h0 + h1)/(h0 + h1) - s1 h0/(h0 + h1) almost zero: s1 ~ s0 (2 h0 + h1)/h0
+        ys.append(ys[1] + s0 * (2 * hs[0] + hs[1]) / hs[0] * (1 - dl) * hs[1])
         while len(ys) < n:
-            ys.append(ys[-1] + s0 * h * rng.uniform(0.5, 3))
+            ys.append(ys[-1] + s0 * hs[len(ys) - 1] * rng.uniform(0.5, 3))
         if rng.random() < 0.5:    # the same at the right end
             xs = [-(v) for v in reversed(xs)]; ys = list(reversed(ys))
             x2 = xs[-1] + rng.uniform(0.3, 0.95) * 0.01 * (xs[-1] - xs[-2]); x1 = T.point(rng, xs, rng.randint(0, n - 2))
@@ -687,7 +751,7 @@ def oracle(meta, ops, vi, vm, ctx):
         Iab, lo_, hi_ = (ab, la, lb) if la <= lb else (ba, lb, la)
         mn, mx = vi[np_ + 7], vi[np_ + 8]
         dom_lo, dom_hi = meta["xs"][0], meta["xs"][-1]
-        if _finite([mn, mx]) and dom_lo <= lo_ and hi_ <= dom_hi:
+        if _finite([mn, mx]):
             ln = Fraction(hi_) - Fraction(lo_)
             sI = (vm[np_][1] if la <= lb else vm[np_ + 3][1]) if vm is not None else scs[0]
             tolb = K_B * EPS * sI + 4 * EPS * max(abs(Fraction(mn)), abs(Fraction(mx))) * ln + ATOL
